@@ -278,6 +278,8 @@ def run(report):
         dl = 3 if ind else 1
         if len(st) != 1 or st[0]["length"] != len(c.encode("utf-8")) + 2 * dl or len([k for k in lx["tokens"] if k["kind"] not in ("Whitespace", "Eol", "Eof")]) != 3:
             continue
+        if not ind and c.startswith('""'):
+            continue          # `"` + `""…` opens a triple-quoted literal: not the literal this case is about
         cook_reqs.append({"op": "cook", "raw": c, "indented": ind, "escapes": esc})
         cook_cases.append((t, r))
     cook_model = dr.pbatch(cook_reqs, chunk=5000)
